@@ -68,6 +68,12 @@ class Case:
 
 def body_cases(ctx):
     cases = []
+    # corpus first: the inputs of Example C12_examples (Properties/C12.v), replayed on the real code
+    err1 = {"message": "boom", "path": ["a", 0]}
+    for v in ({"data": {"a": 1}}, {"errors": []}, {"data": None, "errors": [err1]}, {"extensions": {}},
+              {"data": {"a": None}, "errors": [err1]}, {"errors": "boom"}, {"errors": [{"msg": "x"}]}):
+        cases.append(Case("coq-example", json.dumps(v).encode(), ("some", v), py_spec_body(v)))
+    cases.append(Case("coq-example", b"", ("none",), True))
     for name, raw in NON_JSON:
         try:
             json.loads(raw)
@@ -156,17 +162,21 @@ def observe(v, client, resp):
         t = type(e)
         if not (getattr(m, t.__name__, None) is t or t.__module__.startswith("builtins")):
             return ("crash", f"{t.__module__}.{t.__name__}")
+        try:
+            text = ("str", str(e))
+        except Exception as se:  # noqa: BLE001 — __str__ returning a non-string
+            text = ("str-raises", type(se).__name__)
         if t is exc_mod.GraphQLClientHttpError and m.GraphQLClientHttpError is t:
-            return ("http", e.status_code, e.response is resp, isinstance(e, exc_mod.GraphQLClientError))
+            return ("http", e.status_code, e.response is resp, isinstance(e, exc_mod.GraphQLClientError), text)
         if t is exc_mod.GraphQLClientInvalidResponseError and m.GraphQLClientInvalidResponseError is t:
-            return ("invalid", e.response is resp, isinstance(e, exc_mod.GraphQLClientError))
+            return ("invalid", e.response is resp, isinstance(e, exc_mod.GraphQLClientError), text)
         if t is exc_mod.GraphQLClientGraphQLMultiError and m.GraphQLClientGraphQLMultiError is t:
             errs = []
             for g in e.errors:
                 if type(g) is not exc_mod.GraphQLClientGraphQLError:
                     return ("crash", f"error object of type {type(g).__name__}")
                 errs.append((canon(g.message), canon(g.locations), canon(g.path), canon(g.extensions), canon(g.original)))
-            return ("multi", errs, canon(e.data), isinstance(e, exc_mod.GraphQLClientError))
+            return ("multi", errs, canon(e.data), isinstance(e, exc_mod.GraphQLClientError), text)
         return ("crash", t.__name__)
     return ("data", canon(d))
 
@@ -213,12 +223,13 @@ def _worker(args):
 def model_obs(r):
     o = r[0]
     kind = o[0]
+    text = ("str-raises", "TypeError") if r[3] == "none" else ("str", r[3][1])
     if kind == "http":
-        return ("http", int(o[1]), True, True)
+        return ("http", int(o[1]), True, True, text)
     if kind == "invalid":
-        return ("invalid", True, True)
+        return ("invalid", True, True, text)
     if kind == "multi":
-        return ("multi", [tuple(canon(sx_json(x)) for x in g) for g in o[1]], canon(sx_json(o[2])), True)
+        return ("multi", [tuple(canon(sx_json(x)) for x in g) for g in o[1]], canon(sx_json(o[2])), True, text)
     if kind == "data":
         return ("data", canon(sx_json(o[1])))
     if kind == "crash":
@@ -259,6 +270,8 @@ def run(ctx):
     ]
     variants = _clients.variants()
     run.extra["clients"] = [v.name for v in variants]
+    from . import src_consts
+    src_consts.check_c12(run, model.call("C12", [Sym("constants")]))
     bodies = body_cases(ctx)
     statuses = STATUSES_STD + STATUSES_ODD
     cells = [(st, c) for c in bodies for st in statuses]
@@ -290,7 +303,7 @@ def run(ctx):
             if o != mo:
                 k1_bad.append((vname, st, c, o, mo))
             exp = k3_expected(st, c)
-            if exp is not None and o != exp:
+            if exp is not None and o[:len(exp)] != exp:
                 k3_fail.append((vname, st, c, o, exp))
             elif exp is None and o[0] == "execute-raised":
                 # the response never reached get_data: "no other exception type escapes" fails whatever the body
